@@ -35,12 +35,13 @@ theorem processed_all (files : List Res) (mask : List Bool) (hlen : mask.length 
 
 theorem apply_failed_iff (rs : List Res) (b : Base) :
     (apply rs b).any (fun x => decide (x.status = .failed)) =
-      rs.any (fun x => decide (x.status = .failed) && !b.contains x.path) := by
+      rs.any (fun x => decide (x.status = .failed) && !(x.kind.recordable && b.contains x.path)) := by
   unfold apply
   rw [List.any_map]
   congr 1
   funext x
-  by_cases hf : x.status = .failed <;> by_cases hc : b.contains x.path = true <;> simp [hf, hc]
+  by_cases hf : x.status = .failed <;> by_cases hc : b.contains x.path = true <;>
+    cases hk : x.kind.recordable <;> simp [hf, hc, hk]
 
 /-- does the (grandfathered) result list contain an un-grandfathered failure? -/
 def hasFailure (loaded : Option Base) (rs : List Res) : Bool :=
@@ -84,9 +85,9 @@ theorem no_ff_deterministic (files : List Res) (mask : List Bool)
 
 /-- fail-fast never turns a failing run into a passing one, in particular not when the first
     failure met is one the baseline grandfathers: a grandfathered failure does not trigger -/
-theorem grandfathered_does_not_trigger (b : Base) (r : Res) (h : b.contains r.path = true) :
-    triggers (some b) r = false := by
-  simp [triggers, h]
+theorem grandfathered_does_not_trigger (b : Base) (r : Res) (h : b.contains r.path = true)
+    (hk : r.kind = .content) : triggers (some b) r = false := by
+  simp [triggers, h, hk, Kind.recordable]
 
 /-- exit code (warnings aside) is the same with and without fail-fast for every schedule -/
 theorem exit_independent (loaded : Option Base) (files : List Res) (mask : List Bool)
